@@ -7,6 +7,7 @@ import (
 	"go/ast"
 	"go/constant"
 	"go/types"
+	"os"
 	"sort"
 	"strings"
 
@@ -45,6 +46,14 @@ type Rule struct {
 func (c *Ctx) Machine() (*scanpds.Machine, *scanpds.Result, error) {
 	if c.machine == nil && c.machineErr == nil {
 		c.machine, c.machineErr = scanpds.Extract(c.P)
+		if c.machineErr == nil && os.Getenv("JSVET_DUMP_MACHINE") != "" {
+			// debugging aid: the extracted arms of every state
+			for _, st := range c.machine.States {
+				for _, p := range st.Paths {
+					fmt.Fprintln(os.Stderr, "ARM", c.machine.Describe(st, p))
+				}
+			}
+		}
 		if c.machineErr == nil {
 			if c.Tier == "thorough" {
 				scanpds.Sat = 5
